@@ -7,9 +7,11 @@ statement, computed from the provenance of each probe) and compared with the Coq
 (coq/C02/Model.v via coq/C02/Run.v)."""
 import copy
 import os
+import time
 
 import lib
 from lib import gN
+from props import c02_conn
 
 
 def hexs(b):
@@ -571,6 +573,16 @@ def driver_problem(out):
 
 
 def run(ctx):
+    """the WrapConnection / registry lane, then the connection-level lane (real handleNewTCPConn, histories that interleave
+    registry operations with the steps of an open connection: props/c02_conn.py)"""
+    ok = run_wrap(ctx)
+    if ok is not False:
+        lane0 = time.time()
+        c02_conn.run_lane(ctx)
+        ctx.cov.setdefault("timing", {})["conn-lane"] = round(time.time() - lane0, 1)
+
+
+def run_wrap(ctx):
     ctx.assumptions += [
         "TagObfuscator.TryReveal (X25519 + Elligator + AES-CTR), the obfs4 mark (HMAC-SHA256) and the obfs4 library's "
         "server handshake (MAC over the epoch hour, ntor) are section variables of the model; their observed values are "
@@ -593,25 +605,24 @@ def run(ctx):
     ctx.extra_dirs += ["C08", "C14", "C01"]
     rc, out = ctx.coq_make(["C08/History.vo", "C01/Model.vo"])
     if rc == 0:
-        ctx.coq_props(props_files=["C02/Props.v", "C02/PropsBridge.v"])
+        ctx.coq_props(props_files=["C02/Props.v", "C02/PropsConn.v", "C02/PropsBridge.v"])
         ctx.cov["composition"] = "PropsBridge.v checked against coq/C08 and coq/C01"
     else:
         ctx.extra_dirs[:] = []
-        ctx.coq_props()
+        ctx.coq_props(props_files=["C02/Props.v", "C02/PropsConn.v"])
         ctx.cov["composition"] = "NOT checked in this run: coq/C08 or coq/C01 does not build: " + out[-300:]
         ctx.assumptions.append("composition theorems (C02/PropsBridge.v) were not re-checked: a dependency outside C02 does not build")
     for fn in os.listdir(lib.GEN):
         if fn.startswith(("cases_C02_", ".cases_C02_")):
             os.remove(os.path.join(lib.GEN, fn))
-    rc, out = ctx.coq_make(["C02/Run.vo", "C02/Examples.vo", "C02/Refuted.vo"] +
+    rc, out = ctx.coq_make(["C02/Run.vo", "C02/RunConn.vo", "C02/Examples.vo", "C02/ExamplesConn.vo", "C02/Refuted.vo"] +
                            (["C02/ExamplesBridge.vo"] if ctx.extra_dirs else []))
     if rc != 0:
-        rc2, out2 = ctx.coq_make(["C02/Run.vo"])
+        rc2, out2 = ctx.coq_make(["C02/Run.vo", "C02/RunConn.vo"])
         if rc2 != 0:
             ctx.broken("model-build", "model does not compile: " + out2[-500:])
-            return
+            return False
         ctx.broken("proof-obligation", "non-vacuity examples / refutation witness no longer check: " + out[-500:])
-    import time
     T = {"t0": time.time()}
 
     def lap(name):
